@@ -100,7 +100,8 @@ def skeleton(msg):
 def _resolve(v, h):
     """'@a0' -> first live pid of watcher a (placeholders keep the case a
     pure value while still addressing real pids)."""
-    if isinstance(v, str) and v.startswith('@') and len(v) == 3:
+    if isinstance(v, str) and len(v) == 3 and v[0] == '@' and \
+            v[1] in 'abhg' and v[2].isdigit():
         live = h.world.live(v[1])
         idx = int(v[2])
         return live[idx] if idx < len(live) else 99999
